@@ -377,6 +377,12 @@ fn main() {
     // clusters that exist only under the *extended* grapheme rules (a base letter with a spacing
     // vowel sign, Devanagari and Thai): legacy segmentation would count two characters
     all.extend(strings(&["a", "\u{915}\u{93f}", "\u{e01}\u{e33}"], 3).into_iter().filter(|s| !s.is_ascii()));
+    // a single grapheme cluster whose byte length crosses 2^8 (a base letter with 127 / 128 combining
+    // marks = 255 / 257 bytes): alone, between letters, two in a row
+    {
+        let g = |marks: usize| format!("e{}", "\u{301}".repeat(marks));
+        all.extend([g(127), g(128), format!("a{}b", g(128)), format!("{}{}", g(128), g(127))]);
+    }
     // third family: long texts (lengths around the powers of two a size threshold would sit at) of
     // repeated symbols of mixed widths
     for n in tu_verif::enumerate::threshold_lengths(run.pick(6, 8)) {
